@@ -95,7 +95,8 @@ def h_roundtrip(ctx):
     kty = jwk["kty"]
     how = ctx.choose("origin", ["dict", "bytes", "bytearray-wiped-afterwards"] if kty == "oct" else ["dict", "native", "pem", "der", "bytearray-wiped-afterwards"])
     private = ctx.choose("private", [True] if kty == "oct" else [True, False])
-    params = ctx.deviate("parameters", [None, {"kid": "k1", "use": "sig"}, {"x5t": "t", "x5c": ["AAAA"], "key_ops": ["sign", "verify", "deriveKey"]}])
+    params = ctx.deviate("parameters", [None, {"kid": "k1", "use": "sig"}, {"x5t": "t", "x5c": ["AAAA"], "key_ops": ["sign", "verify", "deriveKey"]},
+                                        {"kid": "cle\u0301-\u212b-\u1112\u1161\u11ab"}])
     form = ctx.choose("export", ["jwk-default", "jwk-private", "jwk-public"] if kty == "oct" else EXPORTS)
     hist = ctx.deviate("export_history", ["once", "twice", "with-params-then-plain", "mutate-result-then-again", "every-other-form-first"])
     tag = f"{kty}{'/' + jwk['crv'] if 'crv' in jwk else ''}"
